@@ -434,7 +434,7 @@ loop:
 
 func TestC15(t *testing.T) {
 	c := ev.Get("C15")
-	c.Rule = "a generated multi-replica program builds (usually forked) logs by Append/Join; one replica and iterator options are drawn: upper bound in {none, LTE with 1-4 entries (related or not, duplicates allowed), LT with one entry, unknown hash}, lower bound in {none, GTE g, GT g} with g drawn inside the selected range, amount in {nil, 0, 1, 2, avail-1, avail, avail+1, size+3, random}. Expected output = reference descending sort of the causal past of the start set (registry closure), cut at g, then first/last `amount`; exact when the ordering is strict-total on that past, order-free clauses otherwise. The channel is buffered (size+2) and must be closed on success. Non-trivial = forked log and (multi-entry LTE, or amount >= available incl. amount 0 on an empty range); distinct = distinct program. Up to three further queries run on the same log object, each after a generated step (nothing, an append, a merge, a failing query, a Values() call); in a sixth of the programs a final iteration is streamed over an unbuffered channel to a consumer that appends to the log after each of the first 1-3 entries: it must end (30 s watchdog, verdict from the goroutine dump) and deliver what the log held when it started."
+	c.Rule = "a generated multi-replica program builds (usually forked) logs by Append/Join; one replica and iterator options are drawn: upper bound in {none, LTE with 1-4 entries (related or not, duplicates allowed), LT with one entry, unknown hash}, lower bound in {none, GTE g, GT g} with g drawn inside the selected range, amount in {nil, 0, 1, 2, avail-1, avail, avail+1, size+3, random}. Expected output = reference descending sort of the causal past of the start set (registry closure), cut at g, then first/last `amount`; exact when the ordering is strict-total on that past, order-free clauses otherwise. The channel is buffered (size+2) and must be closed on success. Non-trivial = forked log and (multi-entry LTE, or amount >= available incl. amount 0 on an empty range); distinct = distinct program. Up to three further queries run on the same log object, each after a generated step (nothing, an append, a merge, a failing query, a Values() call); in a sixth of the programs a final iteration is streamed over an unbuffered channel to a consumer that appends to the log after each of the first 1-3 entries: it must end (30 s watchdog, verdict from the goroutine dump) and deliver what the log held when it started. In a third of the programs with further queries the caller keeps ONE IteratorOptions value for all of them, setting the fields a query needs and clearing only those it set itself."
 	c.Assumptions = []string{"on forked logs 'down to the lower bound' is read as 'everything the ordering places after the bound' (what traverse with an end hash does); the causal-descendant reading is a subset and is asserted too", "Amount -1 (the library's 'no amount') is not generated as an amount", "logs are built by Append/Join only, so every entry's time exceeds its predecessors' (C04), which makes a priority walk equal to a sort"}
 	ev.Check(t, "C15", genC15, runC15)
 }
